@@ -43,6 +43,11 @@ TWINS = [
     ('skoolkit/rzxplay.py', r"        self\.out7ffd = context\.snapshot\.out7ffd\n        self\.outfffd = context\.snapshot\.outfffd\n", "        self.outfffd = context.snapshot.outfffd\n        self.out7ffd = context.snapshot.out7ffd\n", 'RZXTracer.__init__: reorder two initialisations'),
     ('skoolkit/loadtracer.py', r"        registers\[0:2\], registers\[16:18\] = registers\[16:18\], registers\[0:2\]\n        registers\[IFF\] = 0\n", "        registers[IFF] = 0\n        registers[0:2], registers[16:18] = registers[16:18], registers[0:2]\n", 'fast_load: swap two independent statements'),
     ('skoolkit/skoolmacro.py', r"        if _writer:\n            params = _writer\.expand\(params, \*_cwd\)\n        if fields is not None:\n            params = _format_params\(params, params, \*\*fields\)\n", "        if _writer:\n            expanded = _writer.expand(params, *_cwd)\n        else:\n            expanded = params\n        if fields is not None:\n            params = _format_params(expanded, expanded, **fields)\n        else:\n            params = expanded\n", 'parse_ints: expanded text through its own variable'),
+    ('skoolkit/skoolctl.py', r"            write_line\('\{\} \{\}'\.format\(ctl, address\)\)\n        if grouped:", "            write_line(f'{ctl} {address}')\n        if grouped:", 'CtlWriter._write_lines: f-string instead of format'),
+    ('skoolkit/ctlparser.py', r"                elif ctl == 'N':\n                    self\._mid_block_comments\[start\]\.append\(comment\)\n                    self\._subctls\.setdefault\(start, None\)\n                elif ctl == 'E':\n                    self\._end_comments\[start\]\.append\(comment\)\n", "                elif ctl == 'E':\n                    self._end_comments[start].append(comment)\n                elif ctl == 'N':\n                    self._mid_block_comments[start].append(comment)\n                    self._subctls.setdefault(start, None)\n", 'parse_ctls: swap two dispatch branches'),
+    ('skoolkit/snaskool.py', r"        comment_width = max\(self\.comment_width - op_width - 8, self\.config\['CommentWidthMin'\]\)\n", "        room = self.comment_width - op_width - 8\n        comment_width = max(room, self.config['CommentWidthMin'])\n", 'SkoolWriter._write_body: comment column through a local'),
+    ('skoolkit/skoolasm.py', r"            lines = self\.format\(paragraph, self\.desc_width\)\n", "            width = self.desc_width\n            lines = self.format(paragraph, width)\n", 'print_comment_lines: width through a local'),
+    ('skoolkit/__init__.py', r"    WRAPPER\.width = width\n    return WRAPPER\.wrap\(text\)\n", "    w = WRAPPER\n    w.width = width\n    return w.wrap(text)\n", 'wrap: the wrapper through a local alias'),
 ]
 
 # which checks read which source file (a twin is only run against the checks that can see it)
@@ -61,6 +66,11 @@ READERS = {
     'skoolkit/rzxplay.py': {'C10', 'C20'},
     'skoolkit/loadtracer.py': {'C06', 'C08', 'C10', 'C13', 'C20'},
     'skoolkit/skoolmacro.py': {'C04', 'C15', 'C16', 'C17'},
+    'skoolkit/skoolctl.py': {'C03'},
+    'skoolkit/ctlparser.py': {'C01', 'C03', 'C14', 'C18'},
+    'skoolkit/snaskool.py': {'C01', 'C03', 'C14', 'C18'},
+    'skoolkit/skoolasm.py': {'C04', 'C17', 'C18'},
+    'skoolkit/__init__.py': {'C01', 'C03', 'C04', 'C14', 'C17', 'C18'},
 }
 
 def run(prop, mod, repo):
